@@ -824,14 +824,17 @@ char * scpiheap_strndup(scpi_error_info_heap_t * heap, const char *s, size_t n) 
     size_t rem = heap->size - (&heap->data[heap->wr] - heap->data);
 
     if (len >= rem) {
-        memcpy(&heap->data[heap->wr], s, rem);
+        /* the source is only len - 1 characters long: s[len - 1] need not exist */
+        memcpy(&heap->data[heap->wr], s, (len > rem) ? rem : rem - 1);
         len = len - rem;
         ptrs += rem;
         heap->wr = 0;
         heap->count -= rem;
     }
 
-    memcpy(&heap->data[heap->wr], ptrs, len);
+    if (len > 0) {
+        memcpy(&heap->data[heap->wr], ptrs, len - 1);
+    }
     heap->wr += len;
     heap->count -= len;
 
